@@ -8,7 +8,7 @@ Theorem search_exact_engine :
   agree tolower orbit ->
   (forall fn cs g, freq fn cs g = 0%N -> post orbit (ix_tris c fn) cs g = []) ->
   (forall x, tolower x = tolower 10%N -> x = 10%N) ->
-  engine_ok re_match tolower c (expand (simp c q)) ->
+  engine_ok re_match tolower orbit c freq (expand (simp c q)) ->
   search re_match tolower orbit c freq q = spec_search re_match tolower c q.
 Proof.
   intros re_match tolower orbit c freq q Hag Hf Hnl He.
